@@ -448,7 +448,8 @@ def _wavelet_array(f, inline, func):
 
 
 def _wavelet_center_compute(oshape, border=0, dtype=None, cval=0.0):
-    for c in range(1, 16+border):
+    # a shape must fit in 63 bits: larger exponents (and the borders that would need them) cannot be satisfied
+    for c in range(1, min(16+border, 63)):
         nshape = 2**(np.floor(np.log2(oshape))+c)
         nshape = nshape.astype(int, copy=False)
         delta = nshape - oshape
@@ -459,6 +460,7 @@ def _wavelet_center_compute(oshape, border=0, dtype=None, cval=0.0):
         for d,e in zip(delta, oshape):
             position.append( slice(d, d + e) )
         return nshape, position
+    raise ValueError('mahotas.wavelet_center: border is too large')
 
 def wavelet_center(f, border=0, dtype=float, cval=0.0):
     '''
